@@ -51,6 +51,7 @@ type ReqRec struct {
 	AbortAt  []int `json:"-"`
 	PanicAt  []int `json:"-"`
 	PanicSeq int64 `json:"-"`
+	Done     bool  `json:"-"` // ServeHTTP has returned (or panicked)
 	// route cache bookkeeping
 	CacheKeys string `json:"-"` // keys from most to least recent when the request finished
 	Hits      int64  `json:"-"` // cache hits during the request
@@ -99,6 +100,10 @@ type World struct {
 	solo     *reqState           // request being served outside the scheduler
 	identify *string
 
+	copies     [16]*rux.Context
+	copyOrigin [16]*ReqRec
+	ncopies    int
+
 	// registration model state (C04)
 	globals  []string
 	frames   [][]string
@@ -126,6 +131,29 @@ func (w *World) setCur(t int, rs *reqState) {
 	}
 	w.cur[t] = rs
 }
+
+//go:norace
+func (w *World) storeCopy(c *rux.Context, origin *ReqRec) {
+	if w.ncopies < len(w.copies) {
+		w.copies[w.ncopies], w.copyOrigin[w.ncopies] = c, origin
+		w.ncopies++
+	}
+}
+
+// finishedCopy returns the most recent stored copy whose origin request has returned.
+//
+//go:norace
+func (w *World) finishedCopy(self *ReqRec) *rux.Context {
+	for i := w.ncopies - 1; i >= 0; i-- {
+		if o := w.copyOrigin[i]; o != self && o.Done {
+			return w.copies[i]
+		}
+	}
+	return nil
+}
+
+//go:norace
+func markDone(r *ReqRec) { r.Done = true }
 
 //go:norace
 func (w *World) setIdentify(p *string) { w.identify = p }
@@ -429,6 +457,12 @@ func (w *World) act(rs *reqState, id string, c *rux.Context, a Action) {
 			rec.PanicSeq = shNextSeq()
 		}
 		doPanic(a.S, id)
+	case "panicif":
+		if w.sc.Options.OnPanic != "" {
+			rec.PanicAt = append(rec.PanicAt, len(rec.Trace))
+			add("panic", "str")
+			doPanic("str", id)
+		}
 	case "set":
 		c.Set(a.S, a.V)
 	case "adderr":
@@ -441,6 +475,13 @@ func (w *World) act(rs *reqState, id string, c *rux.Context, a Action) {
 		c.Req = c.Req.WithContext(context.WithValue(c.Req.Context(), swapKey{}, id))
 	case "yield":
 		taskYield(-1)
+	case "copy": // keep a Copy() of the context beyond the request, as a handler does for a background goroutine
+		w.storeCopy(c.Copy(), rec)
+	case "usecopy": // the background goroutine of an earlier, finished request writes to its copy
+		if cp := w.finishedCopy(rec); cp != nil {
+			cp.Set(a.S, a.V)
+			cp.AddError(errors.New("bg-" + a.V))
+		}
 	case "selfracy": // self-test control: an unsynchronised access shared by all tasks
 		selfRacyVar++
 	case "selfsync": // self-test control: the same under a real mutex
@@ -456,7 +497,9 @@ func (w *World) act(rs *reqState, id string, c *rux.Context, a Action) {
 		r2 := *c.Req
 		r2.URL = &u
 		c.Req = &r2
+		add("do", "redispatch:"+a.S)
 		c.Router().HandleContext(c)
+		add("do", "endofdispatch") // the nested dispatch has committed the header by now
 	default:
 		panic("ruxsim: unknown action " + a.Op)
 	}
@@ -589,6 +632,7 @@ func (w *World) Serve(task, idx int, rq *Req) *ReqRec {
 		rec.Returned = true
 	}()
 	rec.EndSeq = shNextSeq()
+	markDone(rec)
 	w.setCur(t, nil)
 	rec.Calls = rs.sw.Calls
 	rec.Snap = rs.sw.Snap
